@@ -54,33 +54,6 @@ theorem crash_points (C : Codec) (N : Naming) (fs : Files) (d : SDoc) (tmp : Str
 
 /-! ### non-vacuity: a codec and a naming exist, and the premises of `store_atomic` are met -/
 
-def demoCodec : Codec where
-  enc d := d.id.length :: (d.id.toList.map Char.toNat ++ d.body)
-  dec
-    | [] => none
-    | n :: rest => some ⟨String.ofList ((rest.take n).map Char.ofNat), rest.drop n⟩
-  rt d := by
-    cases d with
-    | mk ident body =>
-      have hlen : ident.length = (ident.toList.map Char.toNat).length := by
-        rw [List.length_map]; exact String.length_toList.symm
-      simp only [Option.some.injEq, SDoc.mk.injEq]
-      refine ⟨?_, ?_⟩
-      · rw [hlen, List.take_left', List.map_map]
-        · have h2 : (Char.ofNat ∘ Char.toNat) = fun c => c := by funext c; simp
-          rw [h2, List.map_id']
-          exact String.ofList_toList
-        · rfl
-      · rw [hlen, List.drop_left']
-        rfl
-
-def demoNaming : Naming where
-  entry i := i ++ ".protobom"
-  inj a b h := by
-    have := congrArg String.toList h
-    simp only [String.toList_append] at this
-    exact String.toList_inj.mp (List.append_cancel_right this)
-
 example : ∀ i, demoNaming.entry i ≠ "tmp" := by
   intro i h
   have := congrArg String.length h
